@@ -148,9 +148,7 @@ contract(MT + '_apply_annotations_field',
          props=('C03',), requires=['field.name is not None', 'self._get_annotation_name(parent) is not None',
                                    'options_ok(self._blocks.get(%s))' % FIELD_KEY,
                                    'field_site_ok(self, parent, parent_block, field)'],
-         modifies=GENERIC_FIELDS[:-1] + ['*.attributes{}', 'field.type', 'field.doc', 'field.doc_position', '*.direction', '*.transfer',
-                                         '*.element_type', '*.key_type', '*.value_type', 'LOGGER._warning_count']
-         if False else ['*.doc', '*.doc_position', '*.version', '*.version_doc', '*.deprecated', '*.deprecated_doc', '*.stability',
+         modifies=['*.doc', '*.doc_position', '*.version', '*.version_doc', '*.deprecated', '*.deprecated_doc', '*.stability',
                         '*.stability_doc', '*.skip', '*.foreign', '*.is_constructor', '*.is_method', '*.set_property', '*.get_property',
                         'field.attributes{}', '*.type', '*.direction', '*.transfer', '*.element_type', '*.key_type', '*.value_type',
                         'LOGGER._warning_count'],
